@@ -53,6 +53,16 @@ func KVInt(e verif.Event, k string) int64 {
 		return int64(v)
 	case uint32:
 		return int64(v)
+	case uint16:
+		return int64(v)
+	case int16:
+		return int64(v)
+	case uint8:
+		return int64(v)
+	case int8:
+		return int64(v)
+	case uint:
+		return int64(v)
 	case bool:
 		if v {
 			return 1
